@@ -28,13 +28,13 @@ FLOORS = {'quick': {'pairs': 1900, 'pixels_judged': 10000000, 'single_layer_requ
                     'group_requests': 320, 'cache_layers': 400, 'alpha_judged': 750, 'res_hidden_layers': 700,
                     'fmt_png8': 240, 'fmt_jpeg': 240, 'fmt_tiff': 270, 'concurrent_rounds': 80, 'concurrent_responses_compared': 6000,
                     'auth_requests': 150, 'auth_requests_with_denied_layer': 80, 'auth_requests_with_limited_layer': 80,
-                    'auth_requests_limiting_a_polygon_clipped_layer': 25},
+                    'auth_requests_limiting_a_polygon_clipped_layer': 25, 'service_extent_cut_requests': 150},
           'thorough': {'pairs': 11000, 'pixels_judged': 65000000, 'single_layer_requests': 5600,
                        'combined_requests_observed': 1900, 'pruned_requests_observed': 780, 'opacity_layers': 4000,
                        'colorkey_layers': 3200, 'clip_layers': 2000, 'group_requests': 2000, 'cache_layers': 2900,
                        'alpha_judged': 4900, 'res_hidden_layers': 3800, 'fmt_png8': 1700, 'fmt_jpeg': 1600, 'fmt_tiff': 1600,
                        'auth_requests': 700, 'auth_requests_with_denied_layer': 450, 'auth_requests_with_limited_layer': 350,
-                       'auth_requests_limiting_a_polygon_clipped_layer': 120}}
+                       'auth_requests_limiting_a_polygon_clipped_layer': 120, 'service_extent_cut_requests': 900}}
 RULE = ("case = one generated configuration (3-7 direct WMS sources, 0-2 png caches, 3-8 named layers incl. groups) with "
         "8-12 GetMap requests of 1-5 layers; every request is issued against the plain and the defeated twin "
         "configuration (= one pair) and both answers are compared with the reference composition and with each other. "
@@ -249,6 +249,17 @@ def gen_spec(rng):
                                                                  {'name': 'L%d' % (names['n'] + 2), 'sources': [pair[1]]}]})
             names['n'] += 3
     spec = {'F': F, 'sources': sources, 'caches': caches, 'tree': tree, 'clr': rng.choice([1, 4])}
+    if rng.random() < 0.25 and 'extent' not in AVOID:
+        # the service extent (wms.bbox_srs) cuts through the requests: the service renders the part inside and pastes it
+        # into the answer; edges are multiples of 16 (pixel edges at every resolution), the focus stays inside
+        ext = list(WORLD)
+        sides = rng.sample([0, 1, 2, 3], rng.choice([1, 1, 2]))
+        for sd in sides:
+            if sd < 2:
+                ext[sd] = F[sd] - 16.0 * rng.choice([0, 1, 2, 4, 9])
+            else:
+                ext[sd] = F[sd - 2] + 16.0 * rng.choice([1, 2, 4, 9])
+        spec['extent'] = ext
     return spec
 
 
@@ -357,6 +368,8 @@ def build(spec, d, twin):
     conf = scenario.base_conf(image={'jpeg_quality': JPEG_QUALITY})
     conf['services'] = {'wms': {'srs': [SRS], 'image_formats': list(FORMATS.values()), 'md': {'title': 'c14'},
                                 'concurrent_layer_renderer': spec['clr']}}
+    if spec.get('extent'):
+        conf['services']['wms']['bbox_srs'] = [{'srs': SRS, 'bbox': list(spec['extent'])}]
     conf['grids']['g'] = {'srs': SRS, 'bbox': list(WORLD), 'tile_size': [TILE, TILE], 'res': GRID_RES, 'origin': 'll'}
     idx = 0
     for s in spec['sources']:
@@ -479,6 +492,33 @@ def source_picture(s, bbox, size, res):
 
 
 def reference(spec, req, denied=(), limits=None):
+    """reference for one request; where the service extent (wms.bbox_srs) cuts the request, the picture is the
+    composition for the part inside (layers that only touch the part outside take no part in it), the rest is background"""
+    ext = spec.get('extent')
+    b, size = req['bbox'], req['size']
+    if not ext or (b[0] >= ext[0] and b[1] >= ext[1] and b[2] <= ext[2] and b[3] <= ext[3]):
+        return _reference(spec, req, denied, limits)
+    res = (b[2] - b[0]) / float(size[0])
+    eb = [max(b[0], ext[0]), max(b[1], ext[1]), min(b[2], ext[2]), min(b[3], ext[3])]
+    ox, oy = int(round((eb[0] - b[0]) / res)), int(round((b[3] - eb[3]) / res))
+    sw, sh = int(round((eb[2] - eb[0]) / res)), int(round((eb[3] - eb[1]) / res))
+    bg = None
+    if not req['transparent']:
+        bg = layersup.parse_bgcolor(req['bgcolor']) if req['bgcolor'] else (255, 255, 255)
+    exp = compose.blank(size, bg)
+    dc = np.zeros((size[1], size[0]), dtype=bool)
+    if sw <= 0 or sh <= 0:
+        return {'exp': exp, 'dc': dc, 'steps': 0, 'feats': set(['service_extent_cut']), 'drawn': 0, 'direct_names': [], 'res': res}
+    sub = dict(req, bbox=eb, size=[sw, sh])
+    r = _reference(spec, sub, denied, limits)
+    exp[oy:oy + sh, ox:ox + sw] = r['exp']
+    dc[oy:oy + sh, ox:ox + sw] = r['dc']
+    r['feats'].add('service_extent_cut')
+    r['exp'], r['dc'] = exp, dc
+    return r
+
+
+def _reference(spec, req, denied=(), limits=None):
     """reference composition for one request: dict(exp F-image, dc mask, steps, feats, items, direct_names);
     denied = layer names the authorization removes, limits = {layer name: rect in the request SRS} it clips to"""
     bbox, size = req['bbox'], req['size']
@@ -1205,6 +1245,8 @@ def one_request(run, case, spec, scp, sct, req, d):
         run.hit('res_hidden_layers')
     if req['transparent']:
         run.hit('alpha_judged')
+    if 'service_extent_cut' in feats:
+        run.hit('service_extent_cut_requests')
     run.hit('fmt_' + req['format'])
     cls = (len(req['layers']), tuple(sorted(feats)), bool(req['transparent']), req['format'], res['shortcut'])
     run.judge(cls, nontrivial=ref['drawn'] > 0, n=3)
